@@ -523,3 +523,7 @@ Definition run_leech (fixed : bool) (inp : list Z) : list Z :=
       end
   | _ => [-779]
   end.
+
+(* kind 105: an honest web seed served in full, alone or next to a peer that never delivers:
+   the download completes and the files are the content *)
+Definition run_webseed (inp : list Z) : list Z := [1; 1].
